@@ -19,6 +19,7 @@ import (
 	"bytes"
 	"context"
 	"encoding/hex"
+	"errors"
 	"fmt"
 	"math/big"
 	"os"
@@ -294,11 +295,21 @@ func (n *node) close() {
 	os.RemoveAll(n.dir)
 }
 
+var errHung = errors.New("addBlock did not return")
+
+// add: watchdog around the real addBlock — a signature verification that never completes (result channel never
+// served) would otherwise hang the harness instead of being reported.
 func (n *node) add(b *types.Block, useMempool bool) error {
 	chain.VerifC04SetSkipMempool(n.cs, !useMempool)
-	err := chain.VerifC04AddBlock(n.cs, b, "peer")
-	n.settle()
-	return err
+	done := make(chan error, 1)
+	go func() { done <- chain.VerifC04AddBlock(n.cs, b, "peer") }()
+	select {
+	case err := <-done:
+		n.settle()
+		return err
+	case <-time.After(20 * time.Second):
+		return errHung
+	}
 }
 
 // admit: what the mempool's verifier actor does with a tx received from RPC / P2P / a reorganisation.
@@ -1041,6 +1052,12 @@ func (s *session) opBlock(parent *mblk, txs []*mtx, useMempool bool, shape strin
 	line := strings.TrimSpace(fmt.Sprintf("block %d %d %s %s", b.bid, parent.bid, u, strings.Join(tids, " ")))
 	s.run.Pending(line)
 	err := s.n.add(blk, useMempool)
+	if err == errHung {
+		s.ops = append(s.ops, line+" => (never returned)")
+		s.fail("the node never finished processing a block (signature verification result never delivered)")
+		s.run.Finish()
+		os.Exit(0)
+	}
 	bestAfter := s.bestBlk()
 	out := ""
 	switch {
